@@ -391,7 +391,7 @@ func fdsGen(r *rng, maxops int, w *bufio.Writer) {
 	fmt.Fprintln(w, "! open")
 	n := 3 + r.intn(maxops)
 	next := 1
-	var ids []int      // every object created (open or closed)
+	var ids []int       // every object created (open or closed)
 	var closedIds []int // closed at least once
 	live := 0
 	for i := 0; i < n; i++ {
